@@ -1,5 +1,9 @@
 import LaunchpadModel.Lemmas.TokenMergeFull
+import LaunchpadModel.Lemmas.TokenMergeFullLedger2
+import LaunchpadModel.Lemmas.TokenMergeFullPay
 import LaunchpadModel.Props.C01
+import LaunchpadModel.Props.C17
+import LaunchpadModel.Props.C02
 /-!
 # Refinement theorems: the composite token-merge model `LP.TMF` (Model/TokenMergeFull.lean) refines the aspect models
 
@@ -356,5 +360,474 @@ theorem C01_fulltm_zero_is_final (s : TMF.State) (m : TMF.Minter) (hm : s.minter
       rw [← hsim] at hfin
       obtain ⟨m', h1, h2, h3⟩ := ih (TMF.step' s op) m1 hm' hfin.1
       exact ⟨m', h1, h2, h3.trans hfin.2⟩
+
+/-! ## C17 — the deposit ledger (`LP.TM`)
+
+Projection `TMF.tmOf` (Lemmas/TokenMergeFullLedger.lean): minter address, admin, the source contracts and their owner tables,
+`mint_tokens`, start, limits, the mintable ids in position order, `MINTER_ADDRS`, `RECEIVED_TOKENS`, the minter's own collection as
+an owner map; source-collection approvals / operators are empty (the composite sends by owners).  Translation `TMF.tmOps`: forward
+simulation with stuttering; every accepted composite message is ZERO or ONE aspect op (`tm_sim_step`), the aspect `picked` witness
+is the id the composite's position witness stands for, every aspect `w` flag is `true`.  Hypotheses: the supply invariant `FInv`
+(a theorem for every history from creation: `C01_fulltm_inv`; preserved by every step) and `TmQuiet` — the four message kinds the
+aspect model has no counterpart for (a new source contract, `Shuffle`, holder transfer / burn in the minter's own collection) and
+governance changing `max_per_address_limit` / the airdrop amount, which are frozen in the aspect state. -/
+
+namespace TMF
+
+theorem finv_step (s : State) (m : Minter) (hm : s.minter = some m) (hi : Supply.FInv m.supply) (op : Op) :
+    ∃ m', (step' s op).minter = some m' ∧ Supply.FInv m'.supply := by
+  have hsim := supply_sim s m hm op
+  unfold supplyOf at hsim
+  cases hm' : (step' s op).minter with
+  | none => rw [hm'] at hsim; cases hsim
+  | some m' =>
+    rw [hm'] at hsim
+    simp only [Option.map_some, Option.some.injEq] at hsim
+    exact ⟨m', rfl, by rw [hsim]; exact (Supply.Fixed.step'_inv _ hi).1⟩
+
+/-- one-step simulation, both outcomes -/
+theorem tm_sim (s : State) (m : Minter) (hm : s.minter = some m) (hi : Supply.FInv m.supply) (op : Op) (hq : TmQuiet s op) :
+    ∃ m', (step' s op).minter = some m' ∧ TM.run (tmOf s m) (tmOps s m op) = tmOf (step' s op) m' := by
+  rcases step'_cases s op with ⟨s', hok, hs'⟩ | ⟨⟨e, herr⟩, hs'⟩
+  · rw [hs']; exact tm_sim_ok hm hok hi hq
+  · rw [hs']
+    exact ⟨m, hm, by simp [tmOps, accepted_of_err herr, TM.run]⟩
+
+def tmRunOps (s : State) : List Op → List TM.Op
+  | [] => []
+  | op :: rest =>
+    (match s.minter with
+     | some m => tmOps s m op
+     | none => []) ++ tmRunOps (step' s op) rest
+
+/-- every message of the history has an aspect counterpart -/
+def QuietRun (s : State) : List Op → Prop
+  | [] => True
+  | op :: rest => TmQuiet s op ∧ QuietRun (step' s op) rest
+
+theorem tm_run_append (w : TM.State) (a b : List TM.Op) : TM.run w (a ++ b) = TM.run (TM.run w a) b := by
+  simp [TM.run, List.foldl_append]
+
+/-- **lift to runs** -/
+theorem tm_run (s : State) (m : Minter) (hm : s.minter = some m) (hi : Supply.FInv m.supply) (ops : List Op)
+    (hq : QuietRun s ops) :
+    ∃ m', (run s ops).minter = some m' ∧ Supply.FInv m'.supply ∧
+      TM.run (tmOf s m) (tmRunOps s ops) = tmOf (run s ops) m' := by
+  induction ops generalizing s m with
+  | nil => exact ⟨m, hm, hi, rfl⟩
+  | cons op ops ih =>
+    obtain ⟨hq1, hq2⟩ := hq
+    obtain ⟨m1, hm1, heq⟩ := tm_sim s m hm hi op hq1
+    obtain ⟨m1', hm1', hi1⟩ := finv_step s m hm hi op
+    rw [hm1] at hm1'; cases hm1'
+    obtain ⟨m', hm', hi', hrun⟩ := ih (step' s op) m1 hm1 hi1 hq2
+    refine ⟨m', by rw [run_cons]; exact hm', hi', ?_⟩
+    simp only [tmRunOps, hm]
+    rw [tm_run_append, heq, hrun, run_cons]
+
+/-- an accepted composite `SendNft` deposit is the accepted aspect `send` -/
+theorem tm_send_step {s s' : State} {m : Minter} {caller coll : Addr} {id : Nat} {contract : Addr} {recipient : Option Addr}
+    {msgOk : Bool} {picked : Nat} (hm : s.minter = some m) (hi : Supply.FInv m.supply)
+    (h : step s (.send caller coll id contract recipient msgOk picked) = .ok s') :
+    ∃ m', s'.minter = some m' ∧
+      TM.step (tmOf s m) (.send caller coll id contract recipient msgOk (pickedId m picked)) = .ok (tmOf s' m') := by
+  obtain ⟨m', hm', hcase⟩ := tm_sim_step hm h hi trivial
+  refine ⟨m', hm', ?_⟩
+  have hacc := accepted_of_ok h
+  rcases hcase with ⟨h0, _⟩ | ⟨aop, h1, hstep⟩
+  · rw [tmOps, if_pos hacc] at h0; cases h0
+  · rw [tmOps, if_pos hacc] at h1
+    simp only [tmCore, List.cons.injEq, and_true] at h1
+    rw [h1]; exact hstep
+
+/-- with no approvals and no operators, "may send" is "is the owner" -/
+theorem canSend_owner {s : State} {m : Minter} {c : Addr} {id : Nat} {who : Addr}
+    (h : TM.canSend (tmOf s m) c id who = true) : s.srcs.owner c id = some who := by
+  unfold TM.canSend at h
+  simp only [tmOf] at h
+  cases ho : s.srcs.owner c id with
+  | none => rw [ho] at h; cases h
+  | some o =>
+    rw [ho] at h
+    simp [TM.liveIn] at h
+    rw [h]
+
+end TMF
+
+/-- the C17 simulation: one composite step = the translated aspect ops (zero or one) on the projection -/
+theorem C17_fulltm_refines (s : TMF.State) (m : TMF.Minter) (hm : s.minter = some m) (hi : Supply.FInv m.supply) (op : TMF.Op)
+    (hq : TMF.TmQuiet s op) :
+    ∃ m', (TMF.step' s op).minter = some m' ∧
+      TM.run (TMF.tmOf s m) (TMF.tmOps s m op) = TMF.tmOf (TMF.step' s op) m' :=
+  TMF.tm_sim s m hm hi op hq
+
+/-- "strictly after the start time … only a required collection contract can credit a deposit … a recipient at its per-address
+limit cannot deposit further": an accepted composite `SendNft` deposit happened strictly after the start, to the minter, by the
+token's owner, from a collection that is required and whose credit for the recipient was still below the required amount, for a
+recipient below the per-address limit -/
+theorem C17_fulltm_deposit_guards (s s' : TMF.State) (m : TMF.Minter) (hm : s.minter = some m) (hi : Supply.FInv m.supply)
+    (caller coll : Addr) (id : Nat) (contract : Addr) (recipient : Option Addr) (msgOk : Bool) (picked : Nat)
+    (h : TMF.step s (.send caller coll id contract recipient msgOk picked) = .ok s') :
+    m.startTime < s.now ∧ contract = m.addr ∧ s.srcs.owner coll id = some caller ∧
+    (∃ amt, TMF.requiredOf m.mintTokens coll = some amt ∧ m.ledger (recipient.getD caller) coll < amt) ∧
+    m.mintCount (recipient.getD caller) < m.perAddressLimit := by
+  obtain ⟨m', _, hstep⟩ := TMF.tm_send_step hm hi h
+  obtain ⟨h1, h2, h3, ⟨amt, h4, h5⟩, h6⟩ := C17_deposit_guards_send hstep
+  exact ⟨h1, h2, TMF.canSend_owner h3, ⟨amt, by rw [← TMF.requiredOf_eq]; exact h4, h5⟩, h6⟩
+
+/-- "mints a new token to a recipient exactly when that recipient has been credited the required number of tokens from every
+required collection": after an accepted composite deposit the minter's collection has one more token iff, counting this deposit,
+the requirement is fulfilled — then the token goes to the recipient, whose mint count goes up by one; otherwise nothing is minted
+and exactly one credit is added -/
+theorem C17_fulltm_mint_iff (s s' : TMF.State) (m : TMF.Minter) (hm : s.minter = some m) (hi : Supply.FInv m.supply)
+    (caller coll : Addr) (id : Nat) (contract : Addr) (recipient : Option Addr) (msgOk : Bool) (picked : Nat)
+    (h : TMF.step s (.send caller coll id contract recipient msgOk picked) = .ok s') :
+    ∃ m', s'.minter = some m' ∧
+      (m'.supply.coll.count = m.supply.coll.count + 1 ↔ Fulfilled (TMF.tmOf s m) (recipient.getD caller) coll) ∧
+      (Fulfilled (TMF.tmOf s m) (recipient.getD caller) coll →
+        ∃ tok, tok ∈ m.supply.ids ∧ m.supply.coll.ownerOf tok = none ∧
+          m'.supply.coll.ownerOf tok = some (recipient.getD caller) ∧
+          m'.mintCount (recipient.getD caller) = m.mintCount (recipient.getD caller) + 1 ∧
+          m'.supply.ids.length + 1 = m.supply.ids.length) ∧
+      (¬ Fulfilled (TMF.tmOf s m) (recipient.getD caller) coll →
+        m'.supply.coll.count = m.supply.coll.count ∧ m'.mintCount = m.mintCount ∧ m'.supply.ids = m.supply.ids ∧
+        m'.ledger (recipient.getD caller) coll = m.ledger (recipient.getD caller) coll + 1) := by
+  obtain ⟨m', hm', hstep⟩ := TMF.tm_send_step hm hi h
+  obtain ⟨h1, h2, h3⟩ := C17_send_mint_iff hstep
+  refine ⟨m', hm', h1, ?_, ?_⟩
+  · intro hf
+    obtain ⟨tok, a1, a2, a3, _, a5, a6⟩ := h2 hf
+    exact ⟨tok, a1, a2, a3, a5, a6⟩
+  · intro hf
+    obtain ⟨b1, _, b3, b4, b5⟩ := h3 hf
+    exact ⟨b1, b3, b4, b5⟩
+
+/-- "each deposited token is burned": after an accepted composite deposit the token no longer exists in its source collection
+and that collection's token count went down by one -/
+theorem C17_fulltm_burn_each (s s' : TMF.State) (m : TMF.Minter) (hm : s.minter = some m) (hi : Supply.FInv m.supply)
+    (caller coll : Addr) (id : Nat) (contract : Addr) (recipient : Option Addr) (msgOk : Bool) (picked : Nat)
+    (h : TMF.step s (.send caller coll id contract recipient msgOk picked) = .ok s') :
+    s'.srcs.owner coll id = none ∧ s'.srcs.num coll = s.srcs.num coll - 1 := by
+  obtain ⟨m', _, hstep⟩ := TMF.tm_send_step hm hi h
+  obtain ⟨h1, h2, _⟩ := C17_burn_each_send hstep
+  exact ⟨h1, h2⟩
+
+/-- "a user calling the receive hook directly is rejected": whoever is not a source collection contract cannot make the hook
+succeed, whatever sender, token id and recipient it claims — even when its address is listed in `mint_tokens` -/
+theorem C17_fulltm_direct_receive_rejected (s : TMF.State) (m : TMF.Minter) (hm : s.minter = some m) (hi : Supply.FInv m.supply)
+    (caller sender : Addr) (id : Nat) (recipient : Option Addr) (msgOk : Bool) (picked : Nat)
+    (huser : caller ∉ s.srcs.colls) :
+    ∃ e, TMF.step s (.receive caller sender id recipient msgOk picked) = .error e := by
+  cases h : TMF.step s (.receive caller sender id recipient msgOk picked) with
+  | error e => exact ⟨e, rfl⟩
+  | ok s' =>
+    exfalso
+    obtain ⟨m', _, hcase⟩ := TMF.tm_sim_step hm h hi trivial
+    have hacc := TMF.accepted_of_ok h
+    rcases hcase with ⟨h0, _⟩ | ⟨aop, h1, hstep⟩
+    · rw [TMF.tmOps, if_pos hacc] at h0; cases h0
+    · rw [TMF.tmOps, if_pos hacc] at h1
+      simp only [TMF.tmCore, List.cons.injEq, and_true] at h1
+      rw [← h1] at hstep
+      obtain ⟨e, he⟩ := C17_direct_receive_rejected (s := TMF.tmOf s m) (caller := caller) (sender := sender) (id := id)
+        (rcp := recipient) (msgOk := msgOk) (picked := TMF.pickedId m picked) huser
+      rw [he] at hstep; cases hstep
+
+/-- the ledger invariant over composite histories: from any state whose ledger is bounded (e.g. right after `CreateMinter`),
+after ANY history with aspect counterparts nobody is credited more than `mint_tokens` asks from a collection, and nothing at all
+for a collection that is not listed -/
+theorem C17_fulltm_ledger_bounded (s : TMF.State) (m : TMF.Minter) (hm : s.minter = some m) (hi : Supply.FInv m.supply)
+    (h0 : ∀ r c, m.ledger r c ≤ (TMF.requiredOf m.mintTokens c).getD 0) (ops : List TMF.Op) (hq : TMF.QuietRun s ops)
+    (r c : Addr) :
+    ∃ m', (TMF.run s ops).minter = some m' ∧ m'.ledger r c ≤ (TMF.requiredOf m.mintTokens c).getD 0 := by
+  obtain ⟨m', hm', _, heq⟩ := TMF.tm_run s m hm hi ops hq
+  have hb : LedgerBounded (TMF.tmOf s m) := by
+    intro r c
+    show m.ledger r c ≤ (TM.requiredOf m.mintTokens c).getD 0
+    rw [TMF.requiredOf_eq]; exact h0 r c
+  have := C17_ledger_bounded (TMF.tmOf s m) hb (TMF.tmRunOps s ops) r c
+  rw [heq] at this
+  refine ⟨m', hm', ?_⟩
+  have h2 : (TM.requiredOf (TMF.tmOf s m).required c).getD 0 = (TMF.requiredOf m.mintTokens c).getD 0 := by
+    show (TM.requiredOf m.mintTokens c).getD 0 = _
+    rw [TMF.requiredOf_eq]
+  rw [h2] at this
+  exact this
+
+/-- "the recipient's deposit ledger is reset after each mint" (deposit-triggered mints): when an accepted composite deposit
+mints, the recipient's whole ledger row is zero afterwards -/
+theorem C17_fulltm_reset (s s' : TMF.State) (m : TMF.Minter) (hm : s.minter = some m) (hi : Supply.FInv m.supply)
+    (h0 : ∀ r c, m.ledger r c ≤ (TMF.requiredOf m.mintTokens c).getD 0)
+    (caller coll : Addr) (id : Nat) (contract : Addr) (recipient : Option Addr) (msgOk : Bool) (picked : Nat)
+    (h : TMF.step s (.send caller coll id contract recipient msgOk picked) = .ok s') :
+    ∃ m', s'.minter = some m' ∧
+      (m'.supply.coll.count = m.supply.coll.count + 1 → ∀ c, m'.ledger (recipient.getD caller) c = 0) := by
+  obtain ⟨m', hm', hstep⟩ := TMF.tm_send_step hm hi h
+  refine ⟨m', hm', fun hminted c => ?_⟩
+  have hb : LedgerBounded (TMF.tmOf s m) := by
+    intro r c
+    show m.ledger r c ≤ (TM.requiredOf m.mintTokens c).getD 0
+    rw [TMF.requiredOf_eq]; exact h0 r c
+  exact C17_reset (TMF.tmOf s m) hb [] (s' := TMF.tmOf s' m') hstep hminted c
+
+/-- "mints … exactly when", the other direction: a composite message (with an aspect counterpart) that changes the minter's
+collection is a deposit or an airdrop by the admin; nothing else, by anybody, mints -/
+theorem C17_fulltm_mint_only_via_deposit_or_admin (s s' : TMF.State) (m m' : TMF.Minter) (hm : s.minter = some m)
+    (hi : Supply.FInv m.supply) (op : TMF.Op) (hq : TMF.TmQuiet s op) (h : TMF.step s op = .ok s')
+    (hm' : s'.minter = some m') (hchg : m'.supply.coll.count ≠ m.supply.coll.count) :
+    (∃ caller coll id contract rcp msgOk picked, op = .send caller coll id contract rcp msgOk picked) ∨
+    (∃ caller sender id rcp msgOk picked, op = .receive caller sender id rcp msgOk picked) ∨
+    (∃ funds rcpt picked, op = .mintTo m.admin funds rcpt picked) ∨
+    (∃ funds id rcpt, op = .mintFor m.admin funds id rcpt) := by
+  obtain ⟨m1, hm1, hcase⟩ := TMF.tm_sim_step hm h hi hq
+  rw [hm'] at hm1; cases hm1
+  have hacc := TMF.accepted_of_ok h
+  rcases hcase with ⟨_, heq⟩ | ⟨aop, h1, hstep⟩
+  · exfalso
+    apply hchg
+    exact congrArg TM.State.tgtNum heq
+  · have hch : (TMF.tmOf s' m').tgtNum ≠ (TMF.tmOf s m).tgtNum ∨ (TMF.tmOf s' m').tgtOwner ≠ (TMF.tmOf s m).tgtOwner :=
+      Or.inl hchg
+    rw [TMF.tmOps, if_pos hacc] at h1
+    rcases C17_mint_only_via_deposit_or_admin hstep hch with
+      ⟨a1, a2, a3, a4, a5, a6, a7, rfl, _⟩ | ⟨a1, a2, a3, a4, a5, a6, rfl, _⟩ | ⟨a1, a2, a3, rfl⟩ | ⟨a1, a2, a3, rfl⟩
+    · cases op <;> simp [TMF.tmCore] at h1
+      exact Or.inl ⟨_, _, _, _, _, _, _, rfl⟩
+    · cases op <;> simp [TMF.tmCore] at h1
+      exact Or.inr (Or.inl ⟨_, _, _, _, _, _, rfl⟩)
+    · cases op <;> simp [TMF.tmCore] at h1
+      obtain ⟨rfl, _⟩ := h1
+      exact Or.inr (Or.inr (Or.inl ⟨_, _, _, rfl⟩))
+    · cases op <;> simp [TMF.tmCore] at h1
+      obtain ⟨rfl, _⟩ := h1
+      exact Or.inr (Or.inr (Or.inr ⟨_, _, _, rfl⟩))
+
+/-! ## C02 — an airdrop charges exactly the airdrop price and disburses all of it; a deposit moves no coins
+
+Projection `TMF.payOf` (family `tokenMerge`, the factory's airdrop price / fee, the admin, the bank, the clock); translation
+`TMF.payOps`: `MintTo` / `MintFor` ↦ the aspect `mint … isAdmin = true`, a deposit (`SendNft` or a direct hook call) ↦ the aspect
+token-merge deposit `mint (hook caller) false []` (no payment check, no bank message), `sudo UpdateParams` ↦ `sudoParams`;
+one-step simulation `TMF.pay_sim_ok/_err` (Lemmas/TokenMergeFullPay.lean) for every message except `Shuffle` (the aspect model has
+no operation for the shuffle fee).  Composite deposits carry no funds (a cw721 `send_nft` forwards none). -/
+
+namespace TMF
+
+def NoShuffle (ops : List Op) : Prop := ∀ op ∈ ops, ∀ sender funds perm, op ≠ .shuffle sender funds perm
+
+/-- the composite history as an aspect-model history -/
+def payRunOps (s : State) : List Op → List MintPay.Op
+  | [] => []
+  | op :: rest => payOps s op ++ payRunOps (step' s op) rest
+
+theorem pay_sim (s : State) (m : Minter) (hm : s.minter = some m) (op : Op)
+    (hop : ∀ sender funds perm, op ≠ .shuffle sender funds perm) :
+    ∃ m', (step' s op).minter = some m' ∧ payOf (step' s op) m' = MintPay.run (payOf s m) (payOps s op) := by
+  rcases step'_cases s op with ⟨s', hok, hs'⟩ | ⟨⟨e, herr⟩, hs'⟩
+  · obtain ⟨m', hm', heq⟩ := pay_sim_ok hm hok hop
+    rw [hs']; exact ⟨m', hm', heq⟩
+  · rw [hs']; exact ⟨m, hm, (pay_sim_err herr).symm⟩
+
+theorem pay_run (s : State) (m : Minter) (hm : s.minter = some m) (ops : List Op) (hns : NoShuffle ops) :
+    ∃ m', (run s ops).minter = some m' ∧ payOf (run s ops) m' = MintPay.run (payOf s m) (payRunOps s ops) := by
+  induction ops generalizing s m with
+  | nil => exact ⟨m, hm, rfl⟩
+  | cons op ops ih =>
+    obtain ⟨m1, hm1, heq⟩ := pay_sim s m hm op (hns op (List.mem_cons_self ..))
+    obtain ⟨m', hm', hrun⟩ := ih (step' s op) m1 hm1 (fun o ho => hns o (List.mem_cons_of_mem _ ho))
+    refine ⟨m', by rw [run_cons]; exact hm', ?_⟩
+    rw [run_cons, hrun, heq]
+    simp only [payRunOps]
+    rw [pay_run_append]
+
+/-- an accepted `MintTo` / `MintFor`, as the aspect model's admin `mint` on the projected world -/
+theorem mint_is_pay_mint {s s' : State} {m : Minter} {op : Op} (hm : s.minter = some m) (h : step s op = .ok s')
+    (sender : Addr) (funds : List Coin)
+    (hop : (∃ r p, op = .mintTo sender funds r p) ∨ (∃ id r, op = .mintFor sender funds id r)) :
+    MintPay.mint (payOf s m) sender true funds true = .ok { payOf s m with bank := s'.bank } := by
+  rcases hop with ⟨r, p, rfl⟩ | ⟨id, r, rfl⟩
+  · simp only [step] at h
+    obtain ⟨m0, hm0, h⟩ := withMinterS_ok h
+    rw [hm] at hm0; cases hm0
+    exact mintAdmin_pay h
+  · simp only [step] at h
+    obtain ⟨m0, hm0, h⟩ := withMinterS_ok h
+    rw [hm] at hm0; cases hm0
+    exact mintAdmin_pay h
+
+/-- who a composite op moves money for, as far as the minter's own balance is concerned (the hook is never called from the
+minter's own address) -/
+def PayAway (mi : Addr) : Op → Prop
+  | .fund a _ => a ≠ mi
+  | .mintTo sender _ _ _ => sender ≠ mi
+  | .mintFor sender _ _ _ => sender ≠ mi
+  | .send _ coll _ _ _ _ _ => coll ≠ mi
+  | .receive caller _ _ _ _ _ => caller ≠ mi
+  | _ => True
+
+theorem payOps_away (s : State) (op : Op) (mi : Addr) (h : PayAway mi op) (hdao : LAUNCHPAD_DAO ≠ mi) :
+    ∀ o ∈ payOps s op, LP.OpAway mi payVariant o := by
+  intro o ho
+  cases op <;> simp only [payOps] at ho
+  case setTime t => split at ho <;> simp at ho; subst ho; trivial
+  case fund a c => simp at ho; subst ho; exact h
+  case send caller coll id contract recipient msgOk picked => simp at ho; subst ho; exact ⟨h, Or.inr rfl⟩
+  case receive caller sender id recipient msgOk picked => simp at ho; subst ho; exact ⟨h, Or.inr rfl⟩
+  case mintTo sender funds r p => simp at ho; subst ho; exact ⟨h, Or.inl (by simp)⟩
+  case mintFor sender funds id r => simp at ho; subst ho; exact ⟨h, Or.inl (by simp)⟩
+  case sudoParams u => split at ho <;> simp at ho; subst ho; exact hdao
+  all_goals simp at ho
+
+theorem payRunOps_away (s : State) (ops : List Op) (mi : Addr) (h : ∀ op ∈ ops, PayAway mi op) (hdao : LAUNCHPAD_DAO ≠ mi) :
+    ∀ o ∈ payRunOps s ops, LP.OpAway mi payVariant o := by
+  induction ops generalizing s with
+  | nil => intro o ho; simp [payRunOps] at ho
+  | cons op ops ih =>
+    intro o ho
+    simp only [payRunOps, List.mem_append] at ho
+    rcases ho with ho | ho
+    · exact payOps_away s op mi (h op (List.mem_cons_self ..)) hdao o ho
+    · exact ih (step' s op) (fun x hx => h x (List.mem_cons_of_mem _ hx)) o ho
+
+end TMF
+
+/-- the C02 simulation: one composite step (any message but `Shuffle`) = the translated aspect ops on the projection -/
+theorem C02_fulltm_refines (s : TMF.State) (m : TMF.Minter) (hm : s.minter = some m) (op : TMF.Op)
+    (hop : ∀ sender funds perm, op ≠ .shuffle sender funds perm) :
+    ∃ m', (TMF.step' s op).minter = some m' ∧
+      TMF.payOf (TMF.step' s op) m' = MintPay.run (TMF.payOf s m) (TMF.payOps s op) :=
+  TMF.pay_sim s m hm op hop
+
+/-- "A mint … succeeds only if the caller attaches exactly the price currently in force for that kind of mint": every accepted
+composite `MintTo` / `MintFor` carried exactly the factory's airdrop price (nothing when it is zero) -/
+theorem C02_fulltm_exact_payment (s s' : TMF.State) (m : TMF.Minter) (op : TMF.Op) (hm : s.minter = some m)
+    (h : TMF.step s op = .ok s') (sender : Addr) (funds : List Coin)
+    (hop : (∃ r p, op = .mintTo sender funds r p) ∨ (∃ id r, op = .mintFor sender funds id r)) :
+    funds = LP.exactFunds s.params.airdropMintPrice := by
+  have hmint := TMF.mint_is_pay_mint hm h sender funds hop
+  obtain ⟨price', hsel, hf⟩ :=
+    C02_exact_payment (TMF.payOf s m) _ sender true funds true (Or.inr (Or.inr ⟨rfl, rfl⟩)) hmint
+  have : MintPay.selectPrice (TMF.payOf s m).v (TMF.payOf s m).f (TMF.payOf s m).m (TMF.payOf s m).now true =
+      .ok s.params.airdropMintPrice := by
+    unfold MintPay.selectPrice
+    simp [TMF.payOf, TMF.payVariant, TMF.payFactory]
+  rw [this] at hsel
+  cases hsel
+  exact hf
+
+/-- "the network fee is paid to the protocol fee recipients according to the fee schedule, the rest goes to … the creator": the
+composite's bank after an accepted airdrop is the bank after (1) the funds reach the minter, (2)
+`distribute_mint_fees(fee, false, None)`, (3) one send of `price − fee` to the ADMIN — nothing else -/
+theorem C02_fulltm_fee_routing (s s' : TMF.State) (m : TMF.Minter) (op : TMF.Op) (hm : s.minter = some m)
+    (h : TMF.step s op = .ok s') (sender : Addr) (funds : List Coin)
+    (hop : (∃ r p, op = .mintTo sender funds r p) ∨ (∃ id r, op = .mintFor sender funds id r)) :
+    ∃ b1, s.bank.sendFunds sender m.addr (LP.exactFunds s.params.airdropMintPrice) = some b1 ∧
+      TMF.networkFee s.params ≤ s.params.airdropMintPrice.amount ∧
+      MintPay.applyMsgs m.addr b1
+        ((if TMF.networkFee s.params = 0 then []
+          else Sg1.distributeMintFees ⟨s.params.airdropMintPrice.denom, TMF.networkFee s.params⟩ false none) ++
+         (if s.params.airdropMintPrice.amount - TMF.networkFee s.params = 0 then []
+          else [Msg.send m.admin ⟨s.params.airdropMintPrice.denom,
+            s.params.airdropMintPrice.amount - TMF.networkFee s.params⟩])) = some s'.bank := by
+  have hmint := TMF.mint_is_pay_mint hm h sender funds hop
+  obtain ⟨price', b1, hsel, hb1, hle, happ⟩ :=
+    C02_fee_routing (TMF.payOf s m) _ sender true funds true (Or.inr (Or.inr ⟨rfl, rfl⟩)) hmint
+  have : MintPay.selectPrice (TMF.payOf s m).v (TMF.payOf s m).f (TMF.payOf s m).m (TMF.payOf s m).now true =
+      .ok s.params.airdropMintPrice := by
+    unfold MintPay.selectPrice
+    simp [TMF.payOf, TMF.payVariant, TMF.payFactory]
+  rw [this] at hsel
+  cases hsel
+  exact ⟨b1, hb1, hle, happ⟩
+
+/-- "the minter contract's own balance is unchanged, so no coins are stranded" — every accepted composite airdrop whose payer is
+not the minter itself, every denom -/
+theorem C02_fulltm_minter_balance_unchanged (s s' : TMF.State) (m : TMF.Minter) (op : TMF.Op) (hm : s.minter = some m)
+    (h : TMF.step s op = .ok s') (sender : Addr) (funds : List Coin)
+    (hop : (∃ r p, op = .mintTo sender funds r p) ∨ (∃ id r, op = .mintFor sender funds id r))
+    (hsm : sender ≠ m.addr)
+    (hrec : m.addr ∉ MintPay.recipients TMF.payVariant (TMF.payFactory s.params) (TMF.payMinter m)) (d : Denom) :
+    s'.bank.bal m.addr d = s.bank.bal m.addr d := by
+  have hmint := TMF.mint_is_pay_mint hm h sender funds hop
+  exact C02_minter_balance_unchanged (TMF.payOf s m) _ sender true funds true hmint (Or.inl (by simp)) hsm hrec d
+
+/-- "no coins are created, lost or stranded" by an accepted composite airdrop -/
+theorem C02_fulltm_conservation (s s' : TMF.State) (m : TMF.Minter) (op : TMF.Op) (hm : s.minter = some m)
+    (h : TMF.step s op = .ok s') (sender : Addr) (funds : List Coin)
+    (hop : (∃ r p, op = .mintTo sender funds r p) ∨ (∃ id r, op = .mintFor sender funds id r))
+    (accts : List Addr) (hn : accts.Nodup) (hsnd : sender ∈ accts) (hmin : m.addr ∈ accts)
+    (hrec : ∀ a ∈ MintPay.recipients TMF.payVariant (TMF.payFactory s.params) (TMF.payMinter m), a ∈ accts) (d : Denom) :
+    s'.bank.total accts d + s'.bank.burned d = s.bank.total accts d + s.bank.burned d ∧
+    s'.bank.minted d = s.bank.minted d ∧ s'.bank.burned d = s.bank.burned d := by
+  have hmint := TMF.mint_is_pay_mint hm h sender funds hop
+  obtain ⟨h1, h2, h3⟩ := C02_conservation (TMF.payOf s m) _ sender true funds true accts hn hsnd hmin hrec hmint d
+  exact ⟨h1, h2, h3 (by simp [TMF.payOf, TMF.payVariant])⟩
+
+/-- an accepted composite deposit (`SendNft` to the minter or a hook call) moves no coins at all -/
+theorem C02_fulltm_deposit_moves_no_coins (s s' : TMF.State) (m : TMF.Minter) (op : TMF.Op) (hm : s.minter = some m)
+    (h : TMF.step s op = .ok s')
+    (hop : (∃ caller coll id ct r mk p, op = .send caller coll id ct r mk p) ∨
+           (∃ caller sender id r mk p, op = .receive caller sender id r mk p)) : s'.bank = s.bank := by
+  have hns : ∀ sender funds perm, op ≠ .shuffle sender funds perm := by
+    rcases hop with ⟨_, _, _, _, _, _, _, rfl⟩ | ⟨_, _, _, _, _, _, rfl⟩ <;> intro _ _ _ hx <;> cases hx
+  obtain ⟨m', _, heq⟩ := TMF.pay_sim_ok hm h hns
+  have hacc := TMF.accepted_of_ok h
+  rcases hop with ⟨caller, coll, id, ct, r, mk, p, rfl⟩ | ⟨caller, sender, id, r, mk, p, rfl⟩
+  · simp only [TMF.payOps, hacc, TMF.pay_run_one] at heq
+    rw [TMF.pay_step'_ok (show MintPay.step (TMF.payOf s m) (.mint coll false [] true) = _ from TMF.deposit_pay s m coll)] at heq
+    exact congrArg MintPay.World.bank heq
+  · simp only [TMF.payOps, hacc, TMF.pay_run_one] at heq
+    rw [TMF.pay_step'_ok (show MintPay.step (TMF.payOf s m) (.mint caller false [] true) = _ from TMF.deposit_pay s m caller)] at heq
+    exact congrArg MintPay.World.bank heq
+
+/-- "the minter contract's own balance is unchanged" after ANY composite history without `Shuffle` (airdrops with any funds,
+accepted or not, deposits, governance changes, clock steps, collection messages), as long as nobody funds the minter directly and
+the minter is not its own payer or payee -/
+theorem C02_fulltm_history_minter_never_holds (s : TMF.State) (m : TMF.Minter) (hm : s.minter = some m) (ops : List TMF.Op)
+    (hns : TMF.NoShuffle ops) (haway : ∀ op ∈ ops, TMF.PayAway m.addr op)
+    (hrec : m.addr ∉ MintPay.recipients TMF.payVariant (TMF.payFactory s.params) (TMF.payMinter m)) (d : Denom) :
+    (TMF.run s ops).bank.bal m.addr d = s.bank.bal m.addr d := by
+  obtain ⟨m', _, heq⟩ := TMF.pay_run s m hm ops hns
+  have hdao : LAUNCHPAD_DAO ≠ m.addr := by
+    intro hx; apply hrec; rw [← hx]; simp [MintPay.recipients]
+  have := C02_history_minter_never_holds (TMF.payOf s m) (TMF.payRunOps s ops) hrec
+    (TMF.payRunOps_away s ops m.addr haway hdao) d
+  rw [← heq] at this
+  exact this
+
+/-! ## Non-vacuity: a concrete composite history (kernel-evaluated) in which the hypotheses above hold and both kinds of mint succeed -/
+
+def ctParams : TMF.Params :=
+  { codeId := 9, allowed := [16], frozen := false, creationFee := ⟨0, 1000⟩, maxTradingOffsetSecs := 3600, maxTokenLimit := 100,
+    maxPerAddressLimit := 5, airdropMintPrice := ⟨0, 100⟩, airdropMintFeeBps := 10000, shuffleFee := ⟨0, 10⟩ }
+
+def ctT0 : Nat := 1647032400000000000
+
+/-- a fresh token-merge factory; code id 9 = `token-merge-minter`, 16 = `sg721-base` -/
+def ctInit : TMF.State := TMF.init ctT0 ⟨[9], [16, 17, 18, 19]⟩ 1000 ctParams
+
+/-- a source collection 2001 with three tokens owned by 20; a merge minter (3 tokens) asking for TWO tokens of 2001; after the
+start 20 deposits token 1 (credit only), then token 2 (completes: burned, id 3 minted to 20, ledger reset); the admin airdrops one;
+a direct call of the hook by 20 is refused -/
+def ctOps : List TMF.Op :=
+  [.fund 10 ⟨0, 5000⟩, .srcNew 2001, .srcGive 2001 1 20, .srcGive 2001 2 20, .srcGive 2001 3 20,
+   .create 10 [⟨0, 1000⟩]
+     { collCode := 16, creator := 10, trading := none, uriOk := true, startTime := ctT0 + 100, numTokens := 3,
+       mintTokens := [(2001, 2)], perAddressLimit := 2, collOk := true }
+     { minterAddr := 1001, collAddr := 1002, perm := [2, 3, 1] },
+   .setTime (ctT0 + 101),
+   .send 20 2001 1 1001 none true 2, .send 20 2001 2 1001 none true 2, .mintTo 10 [⟨0, 100⟩] 30 1,
+   .receive 20 20 3 none true 3]
+
+example : ctInit.minter.isNone = true := by decide
+
+example : (TMF.run ctInit ctOps).minter.map
+    (fun m => (m.supply.minted, m.supply.mintable, m.supply.coll.toks)) = some ([2, 3], 1, [(2, 30), (3, 20)]) := by decide
+
+example : (TMF.run ctInit ctOps).minter.map (fun m => (m.mintCount 20, m.mintCount 30, m.ledger 20 2001)) = some (1, 1, 0) := by
+  decide
+
+/-- both deposited tokens are burned, the third is still 20's; the airdrop cost the admin its price; the minter holds nothing -/
+example : ((TMF.run ctInit ctOps).srcs.num 2001, (TMF.run ctInit ctOps).srcs.owner 2001 3,
+    (TMF.run ctInit ctOps).bank.bal 10 0, (TMF.run ctInit ctOps).bank.bal 1001 0) = (1, some 20, 3900, 0) := by decide
 
 end LP
